@@ -149,10 +149,10 @@ pub fn plan(id: &str) -> Option<Plan> {
         "C10" => Plan {
             id: "C10",
             level: "exploration",
-            profiles: vec![TX, TX_F],
-            quick_runs: 1600,
-            thorough_runs: 40_000,
-            rule: "seeded runs of the transaction-shape profile (shape faults: missing/misplaced/repeated start or end, forbidden inner instruction, foreign/failing program, CPI wrapper; fault-free and fault-injecting halves); one evaluation = one transaction containing a receivership start or end (committed or rejected); committed ones must be in the reference acceptor's language and satisfy the end-state inequalities on the reference model; distinct = transaction shape word x verdict",
+            profiles: vec![TX, TX_F, TX, TX_F, INTEG],
+            quick_runs: 2000,
+            thorough_runs: 50_000,
+            rule: "seeded runs of the transaction-shape profile (shape faults: missing/misplaced/repeated start or end, forbidden inner instruction, foreign/failing program, CPI wrapper; fault-free and fault-injecting halves) and of venue-bank worlds (brackets whose seizure leg is a venue withdrawal); one evaluation = one transaction containing a receivership start or end (committed or rejected); committed ones must be in the reference acceptor's language and satisfy the end-state inequalities on the reference model; distinct = transaction shape word x verdict",
         },
         "C11" => Plan {
             id: "C11",
@@ -165,8 +165,8 @@ pub fn plan(id: &str) -> Option<Plan> {
         "C12" => Plan {
             id: "C12",
             level: "exploration",
-            profiles: vec![ADM, ADM_F, TX],
-            quick_runs: 1600,
+            profiles: vec![ADM, ADM_F, TX, INTEG],
+            quick_runs: 2400,
             thorough_runs: 40_000,
             rule: "seeded runs of the administrator / pause profiles interleaved with market activity (operator churn; fault-free and fault-injecting halves); one evaluation = one successful administrator instruction judged by field-level byte diff of the bank against the role's allowed-write mask (plus: no other bank, group, vault or user account moves), or one deleverage-bracket transaction judged by the reference acceptor; freeze permanence and the daily deleverage window are history checks; distinct = admin ix kind x frozen x set of changed fields, or bracket shape x verdict",
         },
